@@ -242,6 +242,19 @@ func (s *aggqSkel) ctxArgs(c *ast.CallExpr) string {
 	return "(" + strings.Join(as, ", ") + ")"
 }
 
+func aggqHasCall(e ast.Expr) bool {
+	found := false
+	ast.Inspect(e, func(n ast.Node) bool {
+		if c, ok := n.(*ast.CallExpr); ok {
+			if id, isIdent := c.Fun.(*ast.Ident); !isIdent || (id.Name != "append" && id.Name != "len" && id.Name != "cap") {
+				found = true
+			}
+		}
+		return !found
+	})
+	return found
+}
+
 func aggqIsCancelFunc(ty types.Type) bool {
 	n, ok := ty.(*types.Named)
 	return ok && n.Obj().Pkg() != nil && n.Obj().Pkg().Path() == "context" && n.Obj().Name() == "CancelFunc"
@@ -359,7 +372,34 @@ func (s *aggqSkel) stmt(st ast.Stmt) []string {
 	case *ast.ReturnStmt:
 		var rs []string
 		for _, r := range x.Results {
+			// the message an error is decorated with is not control structure
+			type saved struct {
+				lit *ast.BasicLit
+				val string
+			}
+			var undo []saved
+			ast.Inspect(r, func(n ast.Node) bool {
+				c, ok := n.(*ast.CallExpr)
+				if !ok {
+					return true
+				}
+				switch s.src(c.Fun) {
+				case "errors.WithMessage", "errors.WithMessagef", "errors.Wrap", "errors.Wrapf":
+					ast.Inspect(c, func(m ast.Node) bool {
+						if l, ok := m.(*ast.BasicLit); ok && l.Kind == token.STRING {
+							undo = append(undo, saved{l, l.Value})
+							l.Value = "\"…\""
+						}
+						return true
+					})
+					return false
+				}
+				return true
+			})
 			rs = append(rs, s.csrc(r))
+			for _, u := range undo {
+				u.lit.Value = u.val
+			}
 		}
 		return []string{"return(" + strings.Join(rs, ", ") + ")"}
 	case *ast.BranchStmt:
@@ -397,6 +437,14 @@ func (s *aggqSkel) stmt(st ast.Stmt) []string {
 			}
 			// a field written without any call: keep it (nil-ing a channel disables a select case …)
 			if _, isSel := x.Lhs[0].(*ast.SelectorExpr); isSel && len(out) == 0 {
+				rhs := s.csrc(x.Rhs[0])
+				if aggqHasCall(x.Rhs[0]) {
+					rhs = "…" // a value made by a dropped callee (formatting): which field is written matters, not the text
+				}
+				out = append(out, "set("+s.csrc(x.Lhs[0])+x.Tok.String()+rhs+")")
+			}
+			// a whole value overwritten through a pointer (`*s = Sample{…}`: the reset of a pooled object): keep it
+			if _, isStar := x.Lhs[0].(*ast.StarExpr); isStar {
 				out = append(out, "set("+s.csrc(x.Lhs[0])+x.Tok.String()+s.csrc(x.Rhs[0])+")")
 			}
 		}
@@ -560,6 +608,10 @@ func aggqExtra(t *tr) string {
 		aggqEmit(&b, t2, "phoutRun", "phoutAggregator", "Run", "core/aggregator/netsample/phout.go")
 		aggqEmit(&b, t2, "phoutReport", "phoutAggregator", "Report", "core/aggregator/netsample/phout.go")
 		aggqEmit(&b, t2, "newPhout", "", "NewPhout", "core/aggregator/netsample/phout.go")
+		aggqEmit(&b, t2, "phoutHandle", "phoutAggregator", "handle", "core/aggregator/netsample/phout.go")
+		aggqEmit(&b, t2, "sampleAcquire", "", "Acquire", "core/aggregator/netsample/sample.go")
+		aggqEmit(&b, t2, "sampleRelease", "", "releaseSample", "core/aggregator/netsample/sample.go")
+		aggqEmit(&b, t2, "sampleDiscarded", "", "DiscardedShootSample", "core/aggregator/netsample/sample.go")
 		t.errs = append(t.errs, t2.errs...)
 	}
 
